@@ -61,7 +61,7 @@ def gen_objects(rng, keys, n_beats, divs, density, start_beat=0):
 def gen_spec(rng, cls):
     n_charts = rng.choice([1, 1, 2, 3])
     n_beats = 4 * rng.randint(1, 6)
-    if cls == "tempo_on_measure_lines" or cls in ("selectable_false", "leading_empty_measures", "big_lcm", "unsorted"):
+    if cls == "tempo_on_measure_lines" or cls in ("selectable_false", "leading_empty_measures", "big_lcm", "unsorted", "odd_mix", "write_edit_write"):
         tb = sorted({F(0)} | {F(4 * rng.randint(1, max(1, n_beats // 4))) for _ in range(rng.choice([0, 1, 2, 4]))})
     elif cls == "tempo_off_measure":
         tb = sorted({F(0)} | {F(rng.randint(1, n_beats * 4), rng.choice([1, 2, 3, 4, 6, 8])) for _ in range(rng.choice([1, 2, 4]))})
@@ -71,6 +71,8 @@ def gen_spec(rng, cls):
     tempo = [[fs(b), rng.choice(vals)] for b in tb]
     offset = rng.choice([0.0, 375.0, -1250.0, 12.5, 1.0])
     divs = [1, 2, 3, 4, 6, 8, 12, 16] if cls != "big_lcm" else [5, 7, 9, 64, 96, 32]
+    if cls == "odd_mix":
+        divs = rng.choice([[7, 3], [7, 6], [7, 12], [7, 3, 6, 12], [5, 9], [5, 9, 3]])  # 84 / 168 / 336 / 180 / 360 rows per measure
     charts = []
     for _ in range(n_charts):
         ctype, keys = rng.choice(TYPES)
